@@ -358,6 +358,8 @@ def overloaded_medium(case):
         return False
     if any(p["type"] == "lorentz" and p["w"] >= 2.0 for p in case["poles"]):
         return False  # rejected at placement by the isolated-pole rule, not part of the finding
+    if case.get("eps_inf_axes"):
+        return False  # non-positive static permittivity: placement warns about it, not part of the finding
     return stability_margin(case["poles"], case["eps_inf"], case["courant"]) < MARGIN_CLASS
 
 
@@ -406,6 +408,10 @@ def bounded_strategy(draw, ctx):
     if draw(st.sampled_from(range(8))) == 0:
         poles[0] = {"type": "lorentz", "w": draw(st.sampled_from([2.0, 2.6])),
                     "g": draw(st.sampled_from([0.0, 0.5, 2.0, 3.0])), "de": 1.0}
+    eps_axes = None
+    if draw(st.sampled_from(range(8))) == 0:
+        eps_axes = draw(st.sampled_from([[1.0, 1.0, -0.5], [2.25, 2.25, 0.0], [-1.0, 1.0, 1.0], [1.0, -2.0, 1.0],
+                                         [1.0, 1.0, -2.0]]))
     mask = None
     if draw(st.integers(0, 2)) == 0:
         lo, hi = [], []
@@ -415,9 +421,12 @@ def bounded_strategy(draw, ctx):
             lo.append(l0_)
             hi.append(l0_ + size)
         mask = {"lo": lo, "hi": hi}
-    return {"shape": shape, "walls": walls, "courant": courant, "eps_inf": eps_inf,
+    case = {"shape": shape, "walls": walls, "courant": courant, "eps_inf": eps_inf,
             "eps_bg": draw(st.sampled_from([1.0, 1.0, 2.25])), "poles": poles, "mask": mask, "target": target,
             "steps": 10000, "field_seed": draw(st.integers(0, 2 ** 31 - 1))}
+    if eps_axes is not None:
+        case["eps_inf_axes"] = eps_axes
+    return case
 
 
 def bounded_cases(ctx):
@@ -438,7 +447,12 @@ def body_bounded(ctx, case):
     spec = {"shape": list(shape), "steps": case["steps"], "courant": case["courant"], "faces": faces,
             "background": {"eps": case["eps_bg"]}}
     lo, hi = (case["mask"]["lo"], case["mask"]["hi"]) if case["mask"] else ([0, 0, 0], list(shape))
-    box = {"name": "medium", "lo": lo, "hi": hi, "order": 1, "eps": case["eps_inf"], "poles": case["poles"]}
+    # "eps_inf_axes": a diagonal high-frequency permittivity with one non-positive entry (non-negative damping and
+    # strength, so inside the property's literal premise): unconditionally unstable, hence fdtdx must reject it or warn
+    box = {"name": "medium", "lo": lo, "hi": hi, "order": 1, "eps": case.get("eps_inf_axes", case["eps_inf"]),
+           "poles": case["poles"]}
+    if case.get("eps_inf_axes"):
+        ctx.classify("eps_inf_axis<=0")
     beyond_pole_rule = any(p["type"] == "lorentz" and p["w"] >= 2.0 for p in case["poles"])
     if beyond_pole_rule:
         load, margin = float("inf"), float("-inf")
@@ -477,7 +491,7 @@ def body_bounded(ctx, case):
     inv_eps = arrays.inv_permittivities
 
     def energy(a):
-        return jnp.sum(jnp.abs(a.fields.E) ** 2 / inv_eps) + jnp.sum(jnp.abs(a.fields.H) ** 2)
+        return jnp.sum(jnp.abs(a.fields.E) ** 2 / jnp.abs(inv_eps)) + jnp.sum(jnp.abs(a.fields.H) ** 2)
 
     def one(state, _):
         state = forward(state, b.config, b.objects, b.key, record_detectors=False, record_boundaries=False,
